@@ -7,7 +7,7 @@
 #include "signals.h"
 
 /* from c12_layout.c (white-box, used ONLY to name the cause of a reset failure in its signature) */
-extern const int c12_off_lbrr_coded, c12_off_voice_ratio;
+extern const int c12_off_lbrr_coded, c12_off_voice_ratio, c12_off_force_channels;
 
 enum { KE_ENC=0, KE_MS=1, KE_PROJ=2 };
 static int g_kid;
@@ -110,14 +110,19 @@ static void find_subs(int b){
  * makes the whole suffix indistinguishable from the fresh object (apart from getter components that were already stale right
  * after the reset and are reported on their own), that field is the cause.  Oracle unaffected. */
 static const char *e_classify(int b,const unsigned char *rimg,const unsigned char *fimg,const int *path,int np,const obs_t *fobs,uint64_t stale){
-   static const char *const names[4]={NULL,"LBRR_coded","voice_ratio","LBRR_coded+voice_ratio"};
-   int fix; unsigned char *img=malloc(X.n); const char *res=NULL;
-   for(fix=1;fix<=3&&!res;fix++){ int s,i,same=1;
+   /* candidate fields, tried as single fields first, then pairs, then all three: the signature names the smallest repairing set */
+   static const char *const names[8]={NULL,"LBRR_coded","voice_ratio","LBRR_coded+voice_ratio","force_channels","LBRR_coded+force_channels","voice_ratio+force_channels","LBRR_coded+voice_ratio+force_channels"};
+   static const int order[7]={1,2,4,3,5,6,7};
+   int k; unsigned char *img=malloc(X.n); const char *res=NULL;
+   /* the force_channels getter is expected to become equal once that field is repaired, so it must not be excused as "stale" */
+   for(k=0;k<7&&!res;k++){ int fix=order[k],s,i,same=1; uint64_t excuse=stale;
+      if (fix&4) excuse&=~(4ULL<<2);      /* getter index 2 = FORCE_CHANNELS */
       memcpy(img,rimg,X.n);
       for(s=0;s<g_nsub[b];s++){ long so=g_suboff[b][s];
          if (fix&1) memcpy(img+so+c12_off_lbrr_coded,fimg+so+c12_off_lbrr_coded,sizeof(int));
-         if (fix&2) memcpy(img+so+c12_off_voice_ratio,fimg+so+c12_off_voice_ratio,sizeof(int)); }
-      for(i=0;i<np&&same;i++){ obs_t o; run_on(&X.A,i==0?img:NULL,path[i],&o,NULL,0x11); if (obs_diff(&o,&fobs[i])&~stale) same=0; }
+         if (fix&2) memcpy(img+so+c12_off_voice_ratio,fimg+so+c12_off_voice_ratio,sizeof(int));
+         if (fix&4) memcpy(img+so+c12_off_force_channels,fimg+so+c12_off_force_channels,sizeof(int)); }
+      for(i=0;i<np&&same;i++){ obs_t o; run_on(&X.A,i==0?img:NULL,path[i],&o,NULL,0x11); if (obs_diff(&o,&fobs[i])&~excuse) same=0; }
       if (same) res=names[fix];
    }
    free(img); return res;
